@@ -40,8 +40,11 @@ def _const_anywhere(ctx, name):
     """literal value of a module-level constant of that name (first module that defines it as a literal)"""
     for m in ctx.prog.modules.values():
         n = m.consts.get(name)
-        if isinstance(n, ast.Constant):
-            return n.value
+        if n is not None:
+            try:
+                return ast.literal_eval(n)
+            except (ValueError, TypeError, SyntaxError):
+                continue
     return None
 
 
@@ -155,8 +158,8 @@ def rule_D(ctx):
             return Tag('edge id of', e)
 
     class Hmm(orders.PyStub):
-        def __init__(self):
-            self.states = None
+        def __init__(self, S=None, Q=None, P=None, log=False, stationarity=False):
+            self.states = S
             self.calls = []
 
         def setStates(self, fn):
@@ -190,8 +193,8 @@ def rule_D(ctx):
         return Tag('distance to end', end, eg, p_, v)
     hmms = []
 
-    def mk_hmm():
-        h = Hmm()
+    def mk_hmm(*a_, **k_):
+        h = Hmm(*a_, **k_)
         hmms.append(h)
         return h
     glob = {}
@@ -205,7 +208,8 @@ def rule_D(ctx):
             consts[nm] = _const_anywhere(ctx, nm)
         if consts[nm] is not None:
             return consts[nm]
-        raise orders.Unsupported('free name %s' % nm)
+        from .. import absint as _absint
+        return _absint.funcs(ctx, MAP)['__name__'](nm)
     funcs = {pj.name: projector, dn.name: dist_to_node, 'HMM': mk_hmm, 'ceil': math.ceil, 'floor': math.floor, 'print': lambda *a_, **k_: None,
              '__globals__': glob, '__name__': name_of,
              '__resolve__': lambda call, fname: (name_of(fname) if isinstance(call.func, ast.Name) and ctx.prog.maybe_func(MAP + '.' + fname) is not None else None)}
